@@ -593,8 +593,11 @@ func AuthResponseURL(redirectURI string, responseType oidc.ResponseType, respons
 		return setFragment(uri, params), nil
 	}
 	// implicit must use fragment mode is not specified by client
-	if responseType == oidc.ResponseTypeIDToken || responseType == oidc.ResponseTypeIDTokenOnly {
-		return setFragment(uri, params), nil
+	// (the order of the space delimited response type values does not matter)
+	for _, value := range strings.Fields(string(responseType)) {
+		if value == string(oidc.ResponseTypeIDTokenOnly) || value == "token" {
+			return setFragment(uri, params), nil
+		}
 	}
 	// if we get here it's code flow: defaults to query
 	return mergeQueryParams(uri, params), nil
